@@ -4,6 +4,10 @@ from ..sim import programs as PG, simcheck
 ORACLE = "vf.sim.props:c04"
 KINDS = ["raise", "sysexit", "kbint", "bad_arg", "exit_arg", "huge_arg", "unpicklable_result",
          "index_arg", "key_arg"]
+# every exception class a user's __reduce__ may raise is an error of that task only
+EXC_KINDS = ["oserror_arg", "epipe_arg", "ebadf_arg", "timeouterr_arg", "eof_arg", "stopiter_arg",
+             "attr_arg", "type_arg", "assert_arg", "memory_arg", "recursion_arg", "kbintp_arg",
+             "genexit_arg"]
 
 
 def plan(tier):
@@ -12,6 +16,8 @@ def plan(tier):
     for k in KINDS:
         pl.append((PG.failing(k, 1), 1, PT))
         pl.append((PG.failing_first_ok(k, 2), 1, PT))
+    for k in EXC_KINDS:
+        pl.append((PG.failing_first_ok(k, 1), 0 if tier == "quick" else 1, PT))
     pl += [(PG.many_unsendable(6, 1), 1, PT), (PG.callback_raises(1), 1, PT),
            (PG.mixed_failures(["bad_arg", "raise", "ok", "huge_arg", "ok"], 1), 1, PT),
            (PG.mixed_failures(["ok", "ok", "ok", "ok", "bad_arg", "ok"], 1), 1, PT),
